@@ -184,6 +184,7 @@ def finish(pid, tier, evidence, problems, t0, level):
         'not_covered': cfg.get('not_covered', []),
         'supported_range': cfg.get('supported_range', []),
         'known_findings': evidence['known_findings'],
+        'bounded_search': evidence.get('search', {}),
         'undecided': problems['undecided'],
         'failed_obligations': [p['obligation'] for p in problems['failed']],
         'obligation_counting': 'Verus: functions/loops/lemmas reported verified by `verus --output-json` (each bundles all its requires/ensures/invariant/overflow/bounds/termination conditions); Kani: individual CBMC checks (assertions, overflow, bounds) of each harness',
@@ -243,6 +244,20 @@ def main():
         evidence['vacuity'] = vac
         for v in vac.get('problems', []):
             problems['undecided'].append('vacuity: ' + v)
+    # bounded executable-contract search on the real crate (stand-in for code outside the verifier's reach, and the
+    # source of concrete failing inputs; never counted as proof)
+    sr = search.run_search(pid) if os.environ.get('VERIF_NO_SEARCH') != '1' else {'status': 'none', 'checks': []}
+    evidence['search'] = {k: sr.get(k) for k in ('status', 'cmd', 'wall_s')}
+    evidence['search']['checks'] = [{k: c.get(k) for k in ('check', 'cases', 'failed')} for c in sr.get('checks', [])]
+    if sr.get('status') in ('build-failed', 'error'):
+        # the search crate uses the public API only; if it no longer builds the API changed: undecided, not an alarm
+        evidence['search']['log'] = (sr.get('log') or '')[-800:]
+        problems['undecided'].append(f"bounded search did not run ({sr.get('status')})")
+    search_failing = [c for c in sr.get('checks', []) if c.get('failed')]
+    for c in search_failing:
+        problems['failed'].append({'unit': 'search', 'backend': 'search', 'function': c['check'],
+                                   'obligation': f"search::{c['check']}: executable contract fails on a concrete input ({c['failed']} of {c['cases']} cases)",
+                                   'verifier_output': c['first_failure'], 'failing_input': c['first_failure'], 'check': c['check']})
     ev = finish(pid, tier, evidence, problems, t0, cfg.get('level', 'proof'))
     if problems['failed']:
         # group by unit+function so one broken function gives one line
@@ -265,10 +280,16 @@ def main():
                 payload['extra_units'] = p.get('extra_units', [])
                 if not (pb.get('ran') and pb.get('failed_natively')):
                     tail = ' no-failing-input-found'
+            elif p['backend'] == 'search':
+                payload['search'] = {'check': p['check'], 'failing_input': p['failing_input']}
+                say(f"  failing input: {p['failing_input'][:600]}")
             else:
-                found = search.find_counterexample(pid, p, say)
-                payload['search'] = found
-                if not (found and found.get('failing_input')):
+                # Verus gives no counterexample: attach the concrete input found by the bounded search, if any
+                if search_failing:
+                    c = search_failing[0]
+                    payload['search'] = {'check': c['check'], 'failing_input': c['first_failure'], 'all_failing_checks': [x['check'] for x in search_failing]}
+                else:
+                    payload['search'] = {'failing_input': None, 'searched': [c.get('check') for c in sr.get('checks', [])]}
                     tail = ' no-failing-input-found'
             path = write_replay(pid, key[0] + '-' + str(key[1]), payload)
             say(f"VIOLATION property={pid} replay={path}{tail}")
